@@ -10,7 +10,7 @@ import random
 
 import dap2gen as G
 import xdrref as X
-from common import Report, clist, coq_eval_mismatches, proof_phase, use_repo
+from common import Report, clist, coq_eval_mismatches, known_findings, proof_phase, use_repo
 from c07 import ctext
 
 PID = "C06"
@@ -186,6 +186,39 @@ def main():
                                "ascii": asc_b[:600]})
     except Exception as e:  # noqa
         direct.append({"law": "a dataset whose names need quoting is answered in every response kind", "error": repr(e)[:300]})
+    known_nested = False
+    # ---- the projection of ONE COLUMN OF AN INNER sequence (n.in.v): the three response kinds agree and complete
+    kf = {e["id"]: e for e in known_findings(PID) if e.get("status") == "known"}
+    nseq = ("dataset", "c3", (("seq", "n", (("base", "k", "i", (), ()), ("seq", "in", (("base", "u", "i", (), ()), ("base", "v", "d", (), ())), ())),
+                               ((1, ((10, 1.5), (11, 2.5))), (2, ((20, 3.5),)))),))
+    for col_, jcol_ in (("v", 1), ("u", 0)):
+        ncd = ("dataset", "c3", (("seq", "n", (("seq", "in", (nseq[2][0][2][1][2][jcol_],), ()),),
+                                  tuple((tuple((r_[jcol_],) for r_ in row_[1]),) for row_ in nseq[2][0][3])),))
+        r.count(("nested-column-projection", col_))
+        nprob = None
+        try:
+            appn = BaseHandler(G.build(nseq, "iterdata"))
+            got_ = {}
+            for ext in ("dds", "dods", "ascii"):
+                resn = Request.blank("/.%s?n.in.%s" % (ext, col_)).get_response(appn)
+                got_[ext] = resn.body
+                if resn.status_int != 200:
+                    nprob = "%s: status %s" % (ext, resn.status)
+            if nprob is None and got_["dods"][len(got_["dds"]) + 6:] != X.enc(ncd):
+                nprob = "the data response does not carry the values of column %s" % col_
+            if nprob is None:
+                want_tokens = [("%g" % r_[jcol_]) for row_ in nseq[2][0][3] for r_ in row_[1]]
+                atxt = got_["ascii"][len(got_["dds"]):].decode("latin-1")
+                if not all(t_ in atxt for t_ in want_tokens):
+                    nprob = "the ASCII response does not print the values of column %s (%s)" % (col_, ", ".join(want_tokens))
+        except Exception as e:  # noqa
+            nprob = "raised while the body was produced: " + repr(e)[:200]
+        if nprob is not None:
+            if "C06-nested-column-projection" in kf:
+                known_nested = True
+            else:
+                direct.append({"law": "for a valid constraint every response kind completes without error and carries the same values",
+                               "ce": "n.in." + col_, "dataset": repr(nseq), "error": nprob})
     n = 150 if T == "quick" else 2500
     # corpus (independent of the seed): a String column before a Byte column; a projection naming the columns in another order
     q3 = ("seq", "q", (("base", "a", "i", (), ()), ("base", "b", "i", (), ()), ("base", "c", "h", (), ())),
@@ -301,6 +334,9 @@ def main():
     if cases:
         r.sample({"ascii_case": cases[0][:900]})
     seen = set()
+    if known_nested:
+        r.known_finding("a request for one column of an INNER sequence (?n.in.v) is not answered: the data response raises while the body "
+                        "is produced and the ASCII response prints another column's values")
     for d in direct:
         if d["law"] in seen:
             continue
